@@ -1750,6 +1750,12 @@ func ruleOpForward(rule string) ruleFn {
 				}
 			} else {
 				need.Calls = []string{of.callee}
+				// ... or delegated to a sibling that is itself held to hand the operation to the same callee
+				for _, sib := range opForward {
+					if sib.callee == of.callee && sib.fn != of.fn {
+						need.Calls = append(need.Calls, sib.fn)
+					}
+				}
 				// ... or started in a goroutine of its own (the sync agent launches its child processes so)
 				callee := of.callee
 				need.Instr = func(in ssa.Instruction) bool {
